@@ -227,7 +227,11 @@ fn check_string(ctx: &mut Ctx, s: &str) {
             }
         }
     }
-    let d = Dyn::Map(vec![(Key::Str(s.to_string()), Dyn::CollectStr(s.to_string())), (Key::Str(format!("{}#", s)), Dyn::Seq(vec![Dyn::Str(s.to_string())]))]);
+    let d = Dyn::Map(vec![
+        (Key::Str(s.to_string()), Dyn::CollectStr(s.to_string())),
+        (Key::Str(format!("{}#", s)), Dyn::Seq(vec![Dyn::Str(s.to_string())])),
+        (Key::Str("chars".into()), Dyn::Seq(vec![Dyn::CollectChars(s.to_string(), 0), Dyn::CollectChars(s.to_string(), 1), Dyn::CollectChars(s.to_string(), 2)])),
+    ]);
     check_dyn(ctx, &d, false);
 }
 
@@ -370,6 +374,12 @@ impl Check for C05 {
         for k in 0..n {
             emit(Case::with("dyn", vec![], &[r.next() as i64, (k % 7 == 0) as i64]));
         }
+        // deeply nested values (parsed documents serialised through every writer, compact and pretty)
+        for d in 1..=64usize {
+            if g.mine(d as u64) {
+                emit(Case::new("nested", crate::gen::doc::nested(&mut r, d)));
+            }
+        }
         // failing writers on small values
         let n = g.count(1_500, 60_000);
         for _ in 0..n {
@@ -428,6 +438,24 @@ impl Check for C05 {
                         }
                     }
                 }
+            }
+            "nested" => {
+                ctx.nontrivial();
+                ctx.class("value:nested-document");
+                if let Ok(v) = sonic_rs::from_slice::<sonic_rs::Value>(&c.input) {
+                    let model = serde_json::from_slice::<serde_json::Value>(&c.input).map(|m| serde_json::to_vec(&m).unwrap_or_default());
+                    if let Ok(model) = model {
+                        if let Some(out) = writers(ctx, "nested", &v, Ok(&model)) {
+                            if let Some(d) = check_output(ctx, "nested", &out) {
+                                let md = recog::parse_document(&model).unwrap();
+                                if let Err(m) = tree_eq(&d.root, &out, &md.root, &model, &mut String::new()) {
+                                    ctx.fail("tree-differs:nested", m);
+                                }
+                            }
+                        }
+                    }
+                }
+                ctx.sample("nested");
             }
             "fail" => {
                 let mut r = Rng::new(c.p(0) as u64);
